@@ -15,7 +15,7 @@ import TacklerModel.Model.Time
 | `tsJsonChars`, `parseTsJson`, `tsField`| `jiff` 0.2.5: `Display for Timestamp`, `Timestamp::from_str` (the RFC 3339 spellings)      |
 | `uuidParse`, `uuidField`               | `uuid` 1.16.0 `Uuid::parse_str`, hyphenated lower-case `Display`                           |
 | `b64decode`, `b64encode`               | `base64` 0.22.1 `general_purpose::STANDARD` (`PAD`: canonical padding required, no trailing bits) |
-| `utf8decode`                           | `core::str::from_utf8`                                                                     |
+| `utf8decode`, `utf8encode`             | `core::str::from_utf8`, `str::as_bytes`                                                    |
 | `isArmored`, `fromArmor`, `fromJsonStr`, `parseDefinition` | `FilterDefinition::{is_armored, from_armor, from_json_str}` and the dispatch of `tackler-cli/src/main.rs` |
 | `descF`, `describe`                    | `IndentDisplay::i_fmt` of every filter, `Display for FilterDefZoned`                        |
 
@@ -637,6 +637,17 @@ def utf8decode : List UInt8 → Option (List Char)
        | _ => none)
     else none
 
+/-- `str::as_bytes` of one character -/
+def utf8encodeChar (c : Char) : List UInt8 :=
+  if c.toNat < 128 then [byte c.toNat]
+  else if c.toNat < 2048 then [byte (192 + c.toNat / 64), byte (128 + c.toNat % 64)]
+  else if c.toNat < 65536 then [byte (224 + c.toNat / 4096), byte (128 + c.toNat / 64 % 64), byte (128 + c.toNat % 64)]
+  else [byte (240 + c.toNat / 262144), byte (128 + c.toNat / 4096 % 64), byte (128 + c.toNat / 64 % 64), byte (128 + c.toNat % 64)]
+
+def utf8encode : List Char → List UInt8
+  | [] => []
+  | c :: cs => utf8encodeChar c ++ utf8encode cs
+
 /-! ## the armor layer (`filter_definition.rs`) -/
 
 def armorPrefix : List Char := ['b', 'a', 's', 'e', '6', '4', ':']
@@ -676,6 +687,9 @@ def trimStartMatches (pre : List Char) : Nat → List Char → List Char
 /-- `from_armor` before the fix of F7 -/
 def fromArmorTrimAll (P : String → Option JVal) (s : String) : Outcome Filter :=
   if isArmored s then fromPayload P (trimStartMatches armorPrefix s.length s.toList) else .err
+
+/-- the armor of a text as a user makes it: the prefix and the standard base64 of its UTF-8 bytes -/
+def armorOf (s : String) : String := String.ofList (armorPrefix ++ b64encode (utf8encode s.toList))
 
 /-- how `tackler-cli` reads `--api-filter-def`: armor if it looks armored, JSON otherwise -/
 def parseDefinition (P : String → Option JVal) (s : String) : Outcome Filter :=
